@@ -142,6 +142,7 @@ class HBatch(BatchBase):
         self.rt = rt
         self.kind = kind
         self.bid = rt.new_bid(kind)
+        rt.batches.append(self)
         self.flush_calls = 0
         self.owner = threading.get_ident()
 
@@ -243,9 +244,10 @@ class HNonAsync(NonAsyncContext):
 
 
 class HLeaf(object):
-    __slots__ = ("kind", "spec", "pos", "obj", "inst", "path", "fresh")
+    __slots__ = ("kind", "spec", "pos", "obj", "inst", "path", "fresh", "under_dict")
 
     def __init__(self, kind, spec, pos, obj, inst, path=None, fresh=True):
+        self.under_dict = False
         self.kind = kind
         self.spec = spec
         self.pos = pos
@@ -303,6 +305,13 @@ class HarnessRT(object):
         self.flush_faults = prog.get("flush_faults", {})
         self.lazy_calls = {}
         self.sync_depth = 0
+        self.task_of_frame = {}
+        self.keep = []
+        self.wait_frames = []
+        self.yield_leaves = {}
+        self.excs = {}
+        self.before_probes = []
+        self.after_probes = []
 
     def __repr__(self):
         return "rt"
@@ -353,6 +362,7 @@ class HarnessRT(object):
             if ff is not None and ff[0] == "raise" and idx >= ff[1]:
                 cls = UserBaseErr if ff[2] == "base" else UserErr
                 e = cls(("flush", batch.bid))
+                self.excs[e.tag] = e
                 d = exc_desc(e)
                 for rest in items[idx:]:
                     self.item_done[rest.inst] = ("exc", d)
@@ -369,10 +379,12 @@ class HarnessRT(object):
                 self.item_done[it.inst] = ("val", v)
             elif mode == "error":
                 e = UserErr(("item", it.kind, it.key, it.inst))
+                self.excs[e.tag] = e
                 it.set_error(e)
                 self.item_done[it.inst] = ("exc", exc_desc(e))
             elif mode == "baseerror":
                 e = UserBaseErr(("item", it.kind, it.key, it.inst))
+                self.excs[e.tag] = e
                 it.set_error(e)
                 self.item_done[it.inst] = ("exc", exc_desc(e))
             elif mode == "unset":
@@ -400,9 +412,11 @@ class HarnessRT(object):
             tuple((l.kind, l.path if l.path is not None else l.inst) for l in leaves),
         )
         fr.rtdata = leaves
+        self.yield_leaves[(fr.path, k)] = leaves
 
     def ev_resume(self, fr, k, leaves, got):
         fr.steps += 1
+        fr.rtdata = None
         self.emit("resume", fr.path, k)
         for p in self.resume_probes:
             p(self, fr, k, leaves, None, got)
@@ -410,10 +424,11 @@ class HarnessRT(object):
             p(self, fr, k + 1)
 
     def ev_resume_exc(self, fr, k, leaves, e):
-        fr.steps += 1
+        fr.rtdata = None
         self.emit("resume_exc", fr.path, k, exc_desc(e))
         if isinstance(e, GeneratorExit):
             return
+        fr.steps += 1
         for p in self.resume_probes:
             p(self, fr, k, leaves, e, None)
         for p in self.step_probes:
@@ -436,7 +451,9 @@ class HarnessRT(object):
 
     def make_exc(self, fr, site, cls):
         tag = ("raise", site, fr.path)
-        return UserErr(tag) if cls == "exc" else UserBaseErr(tag)
+        e = UserErr(tag) if cls == "exc" else UserBaseErr(tag)
+        self.excs[tag] = e
+        return e
 
     def read(self, fr, name):
         if name.startswith("sv"):
@@ -470,7 +487,9 @@ class HarnessRT(object):
             self.lazy_calls[inst] = self.lazy_calls.get(inst, 0) + 1
             if mode == "ok":
                 return ("lazy", site, inst)
-            raise UserErr(("lazy", site, inst))
+            e = UserErr(("lazy", site, inst))
+            self.excs[e.tag] = e
+            raise e
 
         return Future(provider)
 
@@ -513,6 +532,7 @@ class HarnessRT(object):
         elif kind == "err":
             tag = ("err", l[1], inst)
             e = UserErr(tag) if l[2] == "exc" else UserBaseErr(tag)
+            self.excs[tag] = e
             leaf = HLeaf(kind, l, pos, ErrorFuture(e), inst)
         elif kind == "lazy":
             leaf = HLeaf(kind, l, pos, self._lazy(l[1], inst, l[2]), inst)
@@ -526,18 +546,19 @@ class HarnessRT(object):
         struct = self._build(fr, spec, leaves)
         return struct, leaves
 
-    def _build(self, fr, spec, leaves):
+    def _build(self, fr, spec, leaves, under_dict=False):
         t = spec[0]
         if t == "leaf":
             leaf = self.make_leaf(fr, spec[1], len(leaves))
+            leaf.under_dict = under_dict
             leaves.append(leaf)
             return leaf.obj
         if t == "tuple":
-            return tuple([self._build(fr, s, leaves) for s in spec[1]])
+            return tuple([self._build(fr, s, leaves, under_dict) for s in spec[1]])
         if t == "list":
-            return [self._build(fr, s, leaves) for s in spec[1]]
+            return [self._build(fr, s, leaves, under_dict) for s in spec[1]]
         if t == "dict":
-            return {k: self._build(fr, s, leaves) for k, s in spec[1]}
+            return {k: self._build(fr, s, leaves, True) for k, s in spec[1]}
         raise HarnessFault("struct %r" % (t,))
 
     def orphan(self, fr, l):
@@ -551,10 +572,12 @@ class HarnessRT(object):
         path = fr.path + (site,)
         self.emit("sync_enter", fr.path, path)
         self.sync_depth += 1
+        callee = Frame(nid, path, fr)
+        self.wait_frames.append(callee)
         try:
-            callee = Frame(nid, path, fr)
             return sync_call(self.style_of(nid), self, callee, how)
         finally:
+            self.wait_frames.pop()
             self.sync_depth -= 1
             self.emit("sync_exit", fr.path, path)
 
@@ -568,9 +591,6 @@ class HarnessRT(object):
         self.emit("flush_after", getattr(batch, "bid", ("dbg", id(batch))))
         for p in self.after_probes:
             p(self, batch)
-
-    before_probes = ()
-    after_probes = ()
 
     def attach(self):
         self.sched = asynq_scheduler.get_scheduler()
@@ -595,6 +615,7 @@ class HarnessRT(object):
         root = Frame(self.prog.get("root", 0), (), None)
         style = self.style_of(root.nid)
         self.emit("top_enter", how)
+        self.wait_frames.append(root)
         try:
             if how == "call":
                 v = sync_call(style, self, root, "call")
@@ -618,6 +639,7 @@ class HarnessRT(object):
                 raise
             out = ("exc", exc_desc(e), e)
         finally:
+            self.wait_frames.pop()
             self.emit("top_exit")
             self.detach()
         return out
